@@ -71,6 +71,11 @@ def add_metric(pr, gen_seed):
         m = (MinimizeExpressionOnFinalState if rng.random() < 0.5 else MaximizeExpressionOnFinalState)(e)
         p2.add_quality_metric(m)
         return p2, (m, lambda trace, plan: ev(e, seqsem.mk_lookup(_rekey(p2, trace[-1])), {}, p2)), kind
+    if not (p2.has_fluent("q") and p2.has_fluent("p") and p2.fluent("q").arity == 0 and p2.fluent("p").arity == 1):
+        # a crafted problem without the generator's signature
+        m = MinimizeSequentialPlanLength()
+        p2.add_quality_metric(m)
+        return p2, (m, lambda trace, plan: len(plan)), "length"
     goals = {}
     q = p2.fluent("q")
     goals[q()] = rng.randint(1, 3)
@@ -105,7 +110,8 @@ def bounded(tier, seed):
     nprob, maxlen, cap = (120, 2, 40) if tier == "quick" else (700, 3, 300)
     failures, evals, nontrivial, samples = [], 0, set(), []
     kinds_seen = {}
-    for s, pr0 in SC.problems(seed + 13, nprob, features={"max_actions": 2, "numeric": 1.0}):
+    for s, pr0 in itertools.chain(SC.crafted_problems(seed, 6 if tier == "quick" else 30),
+                                  SC.problems(seed + 13, nprob, features={"max_actions": 2, "numeric": 1.0})):
         pr, metric, mkind = add_metric(pr0, s)
         if not SequentialPlanValidator.supports(pr.kind):
             continue      # outside the validator's declared supported kind (documented rejection)
